@@ -3,7 +3,7 @@
    [leq] is list equality up to Qeq.  All statements hold for EVERY sample list (any length), every
    hardware record (weights, time constants, limits), every gamma, dt, padding and tap count. *)
 From Coq Require Import ZArith QArith Qabs List Bool Arith.
-From PV Require Import Base.QUtil Gen.GenPns Model.Pns Proofs.PnsProofs.
+From PV Require Import Base.QUtil Gen.GenPns Model.Pns Proofs.PnsProofs Proofs.PnsE2E.
 Import ListNotations.
 Open Scope Q_scope.
 
@@ -107,6 +107,96 @@ Print Assumptions C20_ok_iff_normsq_lt_1.
 Theorem C20_percent_factors_cancel : pct * unpct == 1.
 Proof. exact pct_cancel. Qed.
 Print Assumptions C20_percent_factors_cancel.
+
+(* ---- round 2 ------------------------------------------------------------------------------- *)
+(* The whole pipeline in one statement, all axes: if calculate_pns (model: calc_pns with the code's
+   convolution filter) returns o, then with nt the number of raster intervals
+   - the gradient of every channel is sampled at the raster centres (k + 1/2) dt (0 for an absent channel),
+   - every returned component has nt values and its value k differs from the SAFE reference
+     [safe_axis] (recursive first-order low-pass filters, weights, / stim_limit * g_scale, on the slew
+     rate (g_k - g_{k-1}) / gamma / dt of the centre-sampled gradient, g_{-1} = 0) by at most
+     |g_scale / stim_limit| * sum over the truncated filters of |a_i| M (1 - alpha_i)^(n_i),
+     M any bound of the slew rate; filters whose tap count covers the signal contribute 0,
+   - normsq is the sum of squares of the three components and ok holds exactly when all are < 1.
+   Uses pad1 >= 1, which holds for every hardware since the repaired code takes max(round(..), 1). *)
+Theorem C20_calc_pns_is_safe_model : forall gamma dt hx hy hz wx wy wz tx ty tz o,
+  calc_pns lowpass_fir gamma dt hx hy hz wx wy wz tx ty tz = OK o ->
+  0 < dt -> taus_nonneg hx -> taus_nonneg hy -> taus_nonneg hz ->
+  exists nt,
+    (forall w k, (k < nt)%nat ->
+       nth k (opt_sample w dt nt) 0
+       = match w with Some pts => grad_pp pts ((inject_Z (Z.of_nat k) + centre_offset) * dt) | None => 0 end) /\
+    (forall w, length (opt_sample w dt nt) = nt) /\
+    axis_close hx gamma dt tx (opt_sample wx dt nt) (o_x o) /\
+    axis_close hy gamma dt ty (opt_sample wy dt nt) (o_y o) /\
+    axis_close hz gamma dt tz (opt_sample wz dt nt) (o_z o) /\
+    o_normsq o = normsq3 (o_x o) (o_y o) (o_z o) /\
+    (o_ok o = true <-> Forall (fun s => s < 1) (o_normsq o)).
+Proof. exact calc_pns_is_safe_model. Qed.
+Print Assumptions C20_calc_pns_is_safe_model.
+
+(* the per-axis core of it, spelled out (axis_close unfolded) *)
+Theorem C20_axis_is_safe_model : forall h gamma dt p p2 taps g M k,
+  0 < dt -> 0 <= tau1 h -> 0 <= tau2 h -> 0 <= tau3 h ->
+  Forall (fun v => Qabs v <= M) (dgdt dt (0 :: to_tesla gamma g)) -> (k < length g)%nat ->
+  Qabs (nth k (pns_axis lowpass_fir h gamma dt (S p) p2 taps g) 0 - nth k (safe_axis h gamma dt g) 0)
+  <= Qabs (g_scale h / stim_limit h) * trunc_bound h (dt * ms_factor) branches taps (length g) M.
+Proof. exact axis_is_safe_model. Qed.
+Print Assumptions C20_axis_is_safe_model.
+
+(* Tap count of safe_tau_lowpass, n = min(round(log eps / log(1-alpha)), N): np.log is outside the
+   model, so n is tied to (alpha, eps, N) by the decidable condition tap_count_ok
+   (1 <= n <= N and (n = N or (1-alpha)^(n+1) <= eps)), evaluated by the harness on the n the
+   implementation really uses, on every case.  Under it, and for time constants >= dt, the error of
+   calculate_pns against the SAFE recursive model is at most |g_scale/stim_limit| 2 eps M sum|a_i|
+   (eps = 1e-16 read from the source): a statement about calculate_pns itself. *)
+Theorem C20_tap_count_ok_spec : forall n N alpha eps, tap_count_ok n N alpha eps = true ->
+  (n <= N)%nat /\ (n = N \/ (1 - alpha) ^ (Z.of_nat (S n)) <= eps).
+Proof. exact tap_count_ok_spec. Qed.
+Print Assumptions C20_tap_count_ok_spec.
+Theorem C20_axis_error_under_tap_count : forall h gamma dt p p2 taps N g M k,
+  0 < dt -> dt * ms_factor <= tau1 h -> dt * ms_factor <= tau2 h -> dt * ms_factor <= tau3 h ->
+  taps_ok h (dt * ms_factor) branches taps N = true -> (length g <= N)%nat ->
+  Forall (fun v => Qabs v <= M) (dgdt dt (0 :: to_tesla gamma g)) -> (k < length g)%nat ->
+  Qabs (nth k (pns_axis lowpass_fir h gamma dt (S p) p2 taps g) 0 - nth k (safe_axis h gamma dt g) 0)
+  <= Qabs (g_scale h / stim_limit h) * (2 * lowpass_eps * M * weight_sum h branches).
+Proof. exact axis_error_eps. Qed.
+Print Assumptions C20_axis_error_under_tap_count.
+
+(* Homogeneity, sign case: a negative factor scales by -c; flipping all gradients changes nothing.
+   (Linear superposition is NOT claimed: the abs() inside the branches makes the chain non-additive.) *)
+Theorem C20_pns_homogeneous_negative : forall h gamma dt p1 p2 taps c g, c < 0 ->
+  leq (pns_axis lowpass_fir h gamma dt p1 p2 taps (map (Qmult c) g))
+      (map (Qmult (- c)) (pns_axis lowpass_fir h gamma dt p1 p2 taps g)).
+Proof. exact pns_homogeneous_neg. Qed.
+Print Assumptions C20_pns_homogeneous_negative.
+Theorem C20_pns_sign_invariant : forall h gamma dt p1 p2 taps g,
+  leq (pns_axis lowpass_fir h gamma dt p1 p2 taps (map (Qmult (-1)) g))
+      (pns_axis lowpass_fir h gamma dt p1 p2 taps g).
+Proof. exact pns_sign_invariant. Qed.
+Print Assumptions C20_pns_sign_invariant.
+Example C20_not_additive : exists g1 g2,
+  ~ leq (pns_direct lowpass_fir hw_example 1 1 [5%nat; 5%nat; 5%nat] (zipw Qplus g1 g2))
+        (zipw Qplus (pns_direct lowpass_fir hw_example 1 1 [5%nat; 5%nat; 5%nat] g1)
+                    (pns_direct lowpass_fir hw_example 1 1 [5%nat; 5%nat; 5%nat] g2)).
+Proof.
+  exists [1], [-1]. intro H. inversion H as [|a b l1 l2 E _]; subst. vm_compute in E. discriminate E.
+Qed.
+
+(* Time-shift invariance: delaying the gradient of a channel by m raster steps (m leading zero samples)
+   delays its prediction by m samples (m leading zeros), for the same tap counts. *)
+Theorem C20_pns_time_shift : forall h gamma dt p p2 taps m g,
+  leq (pns_axis lowpass_fir h gamma dt (S p) p2 taps (zeros m ++ g))
+      (zeros m ++ pns_axis lowpass_fir h gamma dt (S p) p2 taps g).
+Proof. exact pns_time_shift. Qed.
+Print Assumptions C20_pns_time_shift.
+
+(* non-vacuity of the tap-count condition: alpha = 1/2, eps = 1e-16: the code's n = 53 satisfies it,
+   n = 51 does not (2^-52 > 1e-16) *)
+Example C20_tap_count_example :
+  tap_count_ok 53 100 (1#2) lowpass_eps = true /\ tap_count_tight 53 (1#2) lowpass_eps = true /\
+  tap_count_ok 51 100 (1#2) lowpass_eps = false /\ tap_count_ok 100 100 (1#301) lowpass_eps = true.
+Proof. vm_compute. repeat split. Qed.
 
 (* Non-vacuity: a really truncated filter differs from the recursive one (so the bound says
    something), and a complete run of the model returns OK with three components. *)
